@@ -522,8 +522,8 @@ impl Python {
                     // one doc string can span several lines: every line has to be a comment of its own
                     comments
                         .iter()
-                        .flat_map(|v| v.split('\n'))
-                        .map(|v| format!("{}# {}", indent, v.trim_end_matches('\r')))
+                        .flat_map(|v| super::comment_lines(v))
+                        .map(|v| format!("{}# {}", indent, v))
                         .collect::<Vec<String>>()
                         .join("\n")
                 }
